@@ -285,6 +285,9 @@ def check_must_raise(ctx, repo, qual=NEW):
         ("incomplete grade in graded mode, as a mapping", rep_algebra(3, graded=True), {"values": {"e1": Val("A"), "e2": Val("B")}}),
         ("incomplete grade in graded mode, as a mapping with int keys", rep_algebra(3, graded=True), {"values": {1: Val("A")}}),
         ("permuted grade in graded mode, as a mapping", rep_algebra(3, graded=True), {"values": {2: Val("B"), 1: Val("A"), 4: Val("C")}}),
+        ("one blade twice among the keys", rep_algebra(3), {"keys": (1, 1), "values": [Val("A"), Val("B")]}),
+        ("one blade by name and by key", rep_algebra(3), {"keys": ("e1", 1), "values": [Val("A"), Val("B")]}),
+        ("one blade by name and by key in a mapping", rep_algebra(3), {"values": {"e2": Val("A"), 2: Val("B")}}),
     ]
     for label, alg, kw in cells:
         c = f"{qual}#must-raise:{label}"
@@ -322,7 +325,8 @@ def check_must_raise(ctx, repo, qual=NEW):
                              f"documented as mutually exclusive, so the call must raise (or keep every supplied coefficient)", fn, result=got)
 
 
-@rule("C15.must-raise", props=["C15", "C13"], min_instances=15, mutants=[
+@rule("C15.must-raise", props=["C15", "C13"], min_instances=18, mutants=[
+    ("a blade may be given twice", ("multivector", "        if len(set(keys)) != len(keys):\n            raise ValueError(\"A basis blade is given more than once.\")\n", "")),
     ("keyword blades next to values are ignored", ("multivector", "        if items and (keys is not None or values is not None):\n            raise ValueError(\"Keyword blades cannot be combined with `values` or `keys`.\")\n", "")),
     ("graded check dropped", ("multivector", "if algebra.graded and keys and keys != algebra.indices_for_grades[grades]:", "if False and keys != algebra.indices_for_grades[grades]:")),
     ("graded check compares key sets", ("multivector", "if algebra.graded and keys and keys != algebra.indices_for_grades[grades]:", "if algebra.graded and keys and set(keys) != set(algebra.indices_for_grades[grades]):")),
@@ -349,6 +353,8 @@ def check_input_forms(ctx, repo, qual=NEW):
         ("two grades value list", rep_algebra(2), ([Val(A), Val(B)],), {"grades": (0, 2)}, {0: A, 3: B}),
         ("keys + values + matching grades", rep_algebra(3), (), {"keys": (2, 1), "values": [Val(A), Val(B)], "grades": (1,)}, {2: A, 1: B}),
         ("graded mode, complete grade", rep_algebra(2, graded=True), (), {"keys": (1, 2), "values": [Val(A), Val(B)]}, {1: A, 2: B}),
+        ("integer keys given as a list", rep_algebra(3), (), {"keys": [4, 1], "values": [Val(A), Val(B)]}, {4: A, 1: B}),
+        ("graded mode, complete grade with the keys as a list", rep_algebra(2, graded=True), (), {"keys": [1, 2], "values": [Val(A), Val(B)]}, {1: A, 2: B}),
         ("graded mode, complete grade as a mapping", rep_algebra(2, graded=True), ({"e1": Val(A), "e2": Val(B)},), {}, {1: A, 2: B}),
         ("graded mode, complete grades as a mapping with int keys", rep_algebra(2, graded=True), ({0: Val(C), 1: Val(A), 2: Val(B)},), {}, {0: C, 1: A, 2: B}),
     ]
@@ -365,6 +371,10 @@ def check_input_forms(ctx, repo, qual=NEW):
         if got is None:
             raise Unknown(c, f"unrecognised construction result {out[1]!r}", fn)
         given_keys = kw.get("keys") if "keys" in kw else (args[1] if len(args) > 1 else None)
+        if got == want and not isinstance(out[1].attrs.get("_keys"), tuple):
+            ctx.violation(c, f"construction from {label} stores the keys as a {type(out[1].attrs.get('_keys')).__name__}: the operator caches look "
+                             f"multivectors up by their key tuple, every operator on this multivector raises 'unhashable type'", fn)
+            continue
         if got == want and given_keys is not None and all(isinstance(k, int) for k in given_keys) \
                 and tuple(out[1].attrs["_keys"]) != tuple(given_keys):
             ctx.violation(c, f"construction from {label} stores the keys as {tuple(out[1].attrs['_keys'])}, not in the given "
@@ -460,7 +470,7 @@ def check_accessors(ctx, repo):
             ctx.violation(c, f"{item!r} in mv gives {out}, expected {want} for stored keys {MV_KEYS}", fn)
     # grade
     for grades, want in (((1,), {4: "V0"}), ((0, 2), {0: "V2", 3: "V1"}), ((3,), {7: "V3"}), ((2, 3), {3: "V1", 7: "V3"}),
-                         (((0, 1),), {0: "V2", 4: "V0"})):
+                         (((0, 1),), {0: "V2", 4: "V0"}), ((2, 0), {0: "V2", 3: "V1"}), ((1, 1), {4: "V0"}), (((3, 2),), {3: "V1", 7: "V3"})):
         fn, out = run("grade", list(grades))
         expect_pairs(f"{M}.grade#{grades}", fn, out, want, f"grade{grades}")
     # a multivector holding EVERY blade, stored in binary and in a shuffled order (not the canonical one)
